@@ -105,13 +105,19 @@ def r1345(repo, res):
 
     try:
         for dela in ("5", None):
-            for k in range(0, kmax + 1):
+            for k in range(0, 6):
                 multisets = list(itertools.combinations_with_replacement(CATALOGUE, k))
-                if k == 5:
+                if k > kmax:
+                    # quick tier: the 4- and 5-copy layers on a sample that always holds the repeated-family multisets (2,2,2,2 / 2,2,2,2,2 ...)
+                    same = [ms_ for ms_ in multisets if len(set(ms_)) <= 2]
+                    multisets = rnd.sample(same, min(len(same), 25)) + rnd.sample(multisets, 15)
+                elif k == 5:
                     multisets = rnd.sample(multisets, 150)  # the 5-copy layer is sampled (seeded), lower layers are exhaustive
                 for ms in multisets:
                     outs = set()
                     perms = sorted(set(itertools.permutations(ms)))
+                    if k > kmax and len(perms) > 6:
+                        perms = rnd.sample(perms, 6)
                     if k == 5 and len(perms) > 20:
                         perms = rnd.sample(perms, 20)
                     for perm in perms:
@@ -174,8 +180,9 @@ def r2(repo, res):
     res.analysed(gm, gd, gn)
     Mut = collections.namedtuple("Mutation", ["pos", "op"])
     core, silent = Mut(10, "A>G"), Mut(20, "C>T")
-    gene = Obj(deletion_allele=lambda: "5", get_rsid=lambda m, default=True: {core: "rs1", silent: "rs2"}[Mut(*m)],
-               is_functional=lambda m, infer=True: Mut(*m) == core, mutations={core: ("P1S",), silent: (None,)},
+    loose = Mut(30, "G>T")   # function-altering in the database, but part of no allele's definition (the databases' `random` section)
+    gene = Obj(deletion_allele=lambda: "5", get_rsid=lambda m, default=True: {core: "rs1", silent: "rs2", loose: "rs3"}[Mut(*m)],
+               is_functional=lambda m, infer=True: Mut(*m) in (core, loose), mutations={core: ("P1S",), silent: (None,), loose: ("G9X",)},
                alleles={"4": Obj(func_muts={core}, minors={"4.001": Obj(alt_name="4A")}), "68#2": Obj(func_muts=set(), minors={"68.001#2": Obj(alt_name=None)})})
     sol = [Obj(major="4", minor="4.001", added=[], missing=[silent]), Obj(major="68#2", minor="68.001#2", added=[silent, core], missing=[])]
     me = Obj(solution=sol, major_solution=Obj(cn_solution=Obj(gene=gene)), profile=Obj(display_format=False), diplotype=[[0], [1]])
@@ -186,6 +193,11 @@ def r2(repo, res):
             k, v = Evaluator({"self": me, "i": i}).run(body(gm))
             names.append(v if k == "return" else k)
         ok = names == ["4", "68+rs1", "5"]
+        me_l = Obj(solution=[Obj(major="4", minor="4.001", added=[silent, loose], missing=[])], major_solution=Obj(cn_solution=Obj(gene=gene)), profile=Obj(display_format=False))
+        k, v = Evaluator({"self": me_l, "i": 0}).run(body(gm))
+        if (v if k == "return" else k) != "4+rs3":
+            ok = False
+            names = names + [f"an added function-altering variant that no allele defines is shown as {v!r}, expected '4+rs3'"]
         # fusion suffixes as the shipped databases spell them: digits, digits + letter, sub-allele numbers, generated names
         table = {"4": "4", "68#2": "68", "79#4C": "79", "78#4.021": "78", "13#4.021.ALDY_2": "13", "80#12.002": "80", "4.ALDY_2": "4.ALDY_2", "36#10#2": "36"}
         shown = {}
